@@ -330,6 +330,11 @@ void xmp_end_smix(xmp_context opaque)
 	struct smix_data *smix = &ctx->smix;
 	int i;
 
+	/* voices may still reference the external samples */
+	if (ctx->state > XMP_STATE_LOADED) {
+		return;
+	}
+
 	for (i = 0; i < smix->smp; i++) {
 		xmp_smix_release_sample(opaque, i);
 	}
@@ -338,4 +343,6 @@ void xmp_end_smix(xmp_context opaque)
 	free(smix->xxi);
 	smix->xxs = NULL;
 	smix->xxi = NULL;
+	smix->chn = 0;
+	smix->ins = smix->smp = 0;
 }
